@@ -317,11 +317,13 @@ pub struct Script {
     pub max_dir_entries: usize,
     /// bound on payload produced by read()
     pub honest_read: bool,
+    /// open()/create() never return a passthrough backing id (the asynchronous trait cannot express one)
+    pub no_passthrough: bool,
 }
 
 impl Default for Script {
     fn default() -> Self {
-        Script { err_permille: 200, kind_permille: 150, want: 0, init_err: None, ioctl_out: None, max_dir_entries: 12, honest_read: true }
+        Script { err_permille: 200, kind_permille: 150, want: 0, init_err: None, ioctl_out: None, max_dir_entries: 12, honest_read: true, no_passthrough: false }
     }
 }
 
@@ -558,6 +560,7 @@ impl FileSystem for ScriptFs {
         Self::ctx_args(ctx, &mut a);
         self.simple("open", a, |r| {
             let (fh, opts, pt) = open_res(r);
+            let pt = if self.script.no_passthrough { None } else { pt };
             ((fh, OpenOptions::from_bits_truncate(opts), pt), Res::Open { fh, opts, passthrough: pt })
         })
     }
@@ -575,6 +578,7 @@ impl FileSystem for ScriptFs {
         self.simple("create", a, |r| {
             let e = EntryVals::random(r);
             let (fh, opts, pt) = open_res(r);
+            let pt = if self.script.no_passthrough { None } else { pt };
             ((e.to_entry(), fh, OpenOptions::from_bits_truncate(opts), pt), Res::Create { entry: e, fh, opts, passthrough: pt })
         })
     }
@@ -1063,3 +1067,7 @@ impl FsCacheReqHandler for NopCache {
         Ok(())
     }
 }
+
+#[cfg(feature = "async")]
+#[path = "scriptfs_async.rs"]
+mod asyncimpl;
